@@ -151,3 +151,12 @@ reg('C01', engine='llsym',
     note='Trusted: clang IR, llsym semantics, the reference model (validated vs gcc), CPython contracts. Field count '
          '<= 3 (4); nesting represented inductively; cdef-to-backend plumbing only through replays.',
     technique='differential symbolic execution of LLVM IR against a reference model, SMT (z3 bit-vectors)')
+
+reg('C10', engine='pysym + llsym',
+    text='The real EnumType.build_baseinttype and Parser._build_enum_type run on symbolic enumerator values (proxy '
+         'ints, solver-guided forking) against GCC\'s underlying-type rule and C\'s increment rule; the real '
+         'b_new_enum_type/convert_cdata_to_enum_string run in llsym with an abstract dict: ffi.string gives the first '
+         'declared name with that value or the decimal number.',
+    note='Trusted: pysym proxies, llsym semantics, GCC\'s enum rule as stated, abstract dict model. API-mode enum '
+         'size/sign (taken from the compiler) not covered.',
+    technique='symbolic execution via proxy values (Python) and of LLVM IR (C), SMT (z3)')
